@@ -25,7 +25,7 @@ checks = {
   note="Trusts the Go runtime, the spec-derived metadata validator (used only as delivered => valid) and the recording rasteriser's pen semantics; x/image/vector is not driven with corrupt input. Hang = 20 s without a progress beacon.",
   technique="deterministic simulation: seeded fault injection on a simulated byte store + exhaustive single-fault enumeration over the corpus, invariants per read, tape shrinking and replay"),
 "C10": dict(level="fault_enumeration", ref="DESIGN.md §5 C10",
-  text="Producer-fault simulation on the Destination seam of the real Encoder (S2): a 4-state reference automaton written from the property text runs in lockstep and is compared through a Bytes probe (plus CSel/NSel/LOD) after every call. For each sampled legal history a protocol fault of each of 7 classes is injected at every position, then a Reset (restart) at later positions followed by a legal tail that must decode to itself; every history up to depth 5 (quick) / 6 (thorough) over a 16-call abstract alphabet is enumerated completely; plus long legal histories (runs of 37-300 identical drawing calls) and seeded histories over the whole alphabet. Each history runs probed, unprobed and on an Encoder reset with default metadata (zero-value).",
+  text="Producer-fault simulation on the Destination seam of the real Encoder (S2): a 4-state reference automaton written from the property text runs in lockstep and is compared through a Bytes probe (plus CSel/NSel/LOD) after every call. For each sampled legal history a protocol fault of each of 7 classes is injected at every position, then a Reset (restart) at later positions followed by a legal tail that must decode to itself; every history up to depth 5 (quick) / 6 (thorough) over a 16-call abstract alphabet is enumerated completely; plus long legal histories (runs of 37-300 identical drawing calls; half of them with off-lattice numbers and the resolution flag assigned at arbitrary points, judged up to the format's quantisation) and seeded histories over the whole alphabet. Each history runs probed, unprobed and on an Encoder reset with default metadata (zero-value).",
   note="Arguments on the dyadic lattice so 'decodes to that history' is bit-exact; error message text is not mirrored (only error-ness, EncodeError type and identity of the first error).",
   technique="deterministic simulation: fault enumeration over crash points of call histories against a reference automaton, seeded histories, tape shrinking and replay"),
 "C17": dict(level="fault_enumeration", ref="DESIGN.md §5 C17",
@@ -33,12 +33,12 @@ checks = {
   note="Results are copied before the object is touched again (an earlier Bytes slice aliases the recycled buffer by design). The vec back end is used only on well-formed input with moderate coordinates.",
   technique="deterministic simulation: crash/restart at enumerated call indices with injected abort causes, reused object vs fresh object as reference model, tape shrinking and replay"),
 "C07": dict(level="exploration", ref="DESIGN.md §5 C07",
-  text="Two-party simulation over an intact byte channel: one abstract program (which may read selectors back and call Generator helpers, so it reacts to what it reads) is run against a Renderer and against an Encoder; after every call the selectors reported by both are compared modulo 64, at every styling-mode call boundary the stream is cut, the prefix decoded by the real decoder into a fresh Renderer whose selectors must equal what the Encoder reported at that point, and the final rasteriser logs and paints of the two pipelines are compared (bit-exact on the lattice). Topologies: direct, via bytes, either behind DestinationLogger, Encoder fresh or reused.",
+  text="Two-party simulation over an intact byte channel: one abstract program (which may read selectors back and call Generator helpers, so it reacts to what it reads) is run against a Renderer and against an Encoder; after every call the selectors reported by both are compared modulo 64, at every styling-mode call boundary the stream is cut, the prefix decoded by the real decoder into a fresh Renderer whose selectors must equal what the Encoder reported at that point, and the final rasteriser logs and paints of the two pipelines are compared (bit-exact on the lattice; one program in five carries off-lattice numbers at the edges of the number forms and is compared within the format's quantisation). Topologies: direct, via bytes, either behind DestinationLogger, Encoder fresh or reused.",
   note="No fault is injected: the property is stated for an intact channel. Weakest fit for this technique (see DESIGN.md §3); lattice arguments avoid codec rounding; gradient matrices computed by helpers are compared with 1e-5 relative tolerance.",
   technique="deterministic simulation: seeded histories through two pipeline topologies with stream cuts at every call boundary, lockstep state comparison, tape shrinking and replay"),
 "C18": dict(level="exploration", ref="DESIGN.md §4.3, §5 C18",
-  text="Seeded interleavings of 2-6 independent pipelines (decode/render/encode/disassemble/colour helpers/generator front ends) at Go-statement granularity: the check copies the tree, inserts a yield before every statement with go/ast, and a baton scheduler driven by the tape decides who runs (PCT-style change points or chaos). Oracles: each task's result equals its solo result; hashes of all shared inputs and of every package-level variable (generated VerifGlobals, deep reflective hash) are unchanged after every scheduling slice.",
-  note="Preemption granularity is the statement, not the memory access; a racy write that stores the value already there is invisible. The race detector is not the deciding step (its reports do not replay).",
+  text="Seeded interleavings of 2-6 independent pipelines (decode/render/encode/disassemble/colour helpers/generator front ends) at Go-statement granularity: the check copies the tree, inserts a yield before every statement with go/ast, and a baton scheduler driven by the tape decides who runs (PCT-style change points or chaos). Oracles: each task's result equals its solo result; hashes of all shared inputs and of every package-level variable (generated VerifGlobals, deep reflective hash) are unchanged after every scheduling slice. A second arm runs the same tape-scheduled interleavings in a -race build whose hand-overs the race detector cannot see (//go:norace polling on one P), so that any conflicting unsynchronised accesses by two pipelines are reported, deterministically, as C18.data-race.",
+  note="Preemption granularity is the statement, not the memory access; in the normal arm a racy write that changes no result is invisible, which is what the race arm is for (it needs cgo for the -race build; without it the arm is skipped and the evidence says so). The schedule, not the race detector, is the source of every interleaving: the detector only monitors a deterministic execution.",
   technique="deterministic simulation: seeded scheduler over statement-level yields inserted into a scratch copy, solo-run reference results, global/input write detection, tape shrinking and replay"),
 }
 built = sys.argv[1:]
